@@ -823,6 +823,12 @@ func extraCommand(name string, args []string) bool {
 	case "bsi":
 		cmdBSI(args)
 		return true
+	case "fuzzdec64":
+		cmdFuzzDec64(args)
+		return true
+	case "dec64":
+		dec64Child(args)
+		return true
 	}
 	return false
 }
